@@ -125,6 +125,19 @@ func (f *Frame) findImport(pkg *types.Package, name string) *types.Package {
 func (f *Frame) specEval(e SExpr, env *SpecEnv) Val {
 	v := f.specEval1(e, env)
 	switch e.(type) {
+	case *SSel, *SIndex:
+		// a Go integer read through a field/element is within its type's range (true of every
+		// well-typed value; stated once per term)
+		if v.Ty != nil && isInteger(v.Ty) && env.st != nil && !strings.Contains(v.T, "!q") && !f.c.rangeSeen[v.T] {
+			if _, isConst := constOf(v); !isConst {
+				f.c.rangeSeen[v.T] = true
+				for _, inv := range f.c.sorts.TypeInv(v.T, v.Ty, 0) {
+					f.c.axioms = append(f.c.axioms, inv)
+				}
+			}
+		}
+	}
+	switch e.(type) {
 	case *SSel, *SIndex, *SCall:
 		if len(v.T) > 80 && v.T != "nil" && !strings.Contains(v.T, "!q") {
 			return f.name("s", v)
